@@ -26,8 +26,10 @@ NAVS5 = ["a", "b", "~a", "'n'~a", "'n m'~b"]
 NAVS3 = ["a", "~b", '"n m"~a']
 # fixed names that need care when printed: a quote of the other kind, an escaped quote, the empty name
 NAVSQ = ["a", '"q\'r"~a', "'q\"r'~b", "'q\\'r'~a", "''~b"]
+# braces (doubled and single) and a single quote as the FIRST character of a name given in double quotes
+NAVSB = ["a", "'{{s}}'~a", "'{'~b", '"\'t"~a', '"\'"~b']
 # (navigation alphabet, max atoms, max bracket depth) per tier; the union is enumerated
-SPACES = {"quick": [(NAVS5, 2, 1), (NAVSQ, 2, 1)], "thorough": [(NAVS5, 2, 2), (NAVS3, 3, 1), (NAVSQ, 2, 1)]}
+SPACES = {"quick": [(NAVS5, 2, 1), (NAVSQ, 2, 1), (NAVSB, 2, 1)], "thorough": [(NAVS5, 2, 2), (NAVS3, 3, 1), (NAVSQ, 2, 1), (NAVSB, 2, 1)]}
 _NAV = [NAVS5]
 
 
@@ -200,13 +202,16 @@ def run_case(text, with_eval=True):
     if alike != text:
         ta = parse(alike)
         if fixed_in_struct(struct(ta)) != fixed_in_text(alike):
-            return False, {"text": alike, "printed": str(ta), "fixed_names_expected": fixed_in_text(alike), "fixed_names_parsed": fixed_in_struct(struct(ta))}
+            return False, {"text": alike, "printed": repr(getattr(ta, "seq", ta))[:80], "fixed_names_expected": fixed_in_text(alike), "fixed_names_parsed": fixed_in_struct(struct(ta))}
     t1 = parse(text)
     s1 = struct(t1)
     if fixed_in_struct(s1) != fixed_in_text(text):
         return False, {"text": text, "printed": str(t1), "fixed_names_expected": fixed_in_text(text), "fixed_names_parsed": fixed_in_struct(s1),
                        "parsed_before": alike if alike != text else None}
-    printed = str(t1)
+    try:
+        printed = str(t1)
+    except Exception as e:
+        return False, {"text": text, "print_error": "%s: %s" % (type(e).__name__, e)}
     try:
         t2 = parse(printed)
     except Exception as e:
